@@ -19,9 +19,9 @@ theories/ETDRK/Scaling.vos theories/ETDRK/Scaling.vok theories/ETDRK/Scaling.req
 theories/Exec/Codec.vo theories/Exec/Codec.glob theories/Exec/Codec.v.beautified theories/Exec/Codec.required_vo: theories/Exec/Codec.v theories/Base/Scalar.vo theories/Base/FieldLemmas.vo theories/Base/Cplx.vo
 theories/Exec/Codec.vio: theories/Exec/Codec.v theories/Base/Scalar.vio theories/Base/FieldLemmas.vio theories/Base/Cplx.vio
 theories/Exec/Codec.vos theories/Exec/Codec.vok theories/Exec/Codec.required_vos: theories/Exec/Codec.v theories/Base/Scalar.vos theories/Base/FieldLemmas.vos theories/Base/Cplx.vos
-theories/Exec/Entry.vo theories/Exec/Entry.glob theories/Exec/Entry.v.beautified theories/Exec/Entry.required_vo: theories/Exec/Entry.v theories/Base/Scalar.vo theories/Base/FieldLemmas.vo theories/Base/Cplx.vo theories/Exec/Codec.vo theories/Utils/Rollout.vo theories/Gen/ETDRK.vo theories/Gen/Guards.vo theories/Spectral/Symbols.vo theories/Gen/GenericUtils.vo
-theories/Exec/Entry.vio: theories/Exec/Entry.v theories/Base/Scalar.vio theories/Base/FieldLemmas.vio theories/Base/Cplx.vio theories/Exec/Codec.vio theories/Utils/Rollout.vio theories/Gen/ETDRK.vio theories/Gen/Guards.vio theories/Spectral/Symbols.vio theories/Gen/GenericUtils.vio
-theories/Exec/Entry.vos theories/Exec/Entry.vok theories/Exec/Entry.required_vos: theories/Exec/Entry.v theories/Base/Scalar.vos theories/Base/FieldLemmas.vos theories/Base/Cplx.vos theories/Exec/Codec.vos theories/Utils/Rollout.vos theories/Gen/ETDRK.vos theories/Gen/Guards.vos theories/Spectral/Symbols.vos theories/Gen/GenericUtils.vos
+theories/Exec/Entry.vo theories/Exec/Entry.glob theories/Exec/Entry.v.beautified theories/Exec/Entry.required_vo: theories/Exec/Entry.v theories/Base/Scalar.vo theories/Base/FieldLemmas.vo theories/Base/Cplx.vo theories/Exec/Codec.vo theories/Utils/Rollout.vo theories/Gen/ETDRK.vo theories/Gen/Guards.vo theories/Spectral/Symbols.vo theories/Gen/GenericUtils.vo theories/Steppers/Linear.vo
+theories/Exec/Entry.vio: theories/Exec/Entry.v theories/Base/Scalar.vio theories/Base/FieldLemmas.vio theories/Base/Cplx.vio theories/Exec/Codec.vio theories/Utils/Rollout.vio theories/Gen/ETDRK.vio theories/Gen/Guards.vio theories/Spectral/Symbols.vio theories/Gen/GenericUtils.vio theories/Steppers/Linear.vio
+theories/Exec/Entry.vos theories/Exec/Entry.vok theories/Exec/Entry.required_vos: theories/Exec/Entry.v theories/Base/Scalar.vos theories/Base/FieldLemmas.vos theories/Base/Cplx.vos theories/Exec/Codec.vos theories/Utils/Rollout.vos theories/Gen/ETDRK.vos theories/Gen/Guards.vos theories/Spectral/Symbols.vos theories/Gen/GenericUtils.vos theories/Steppers/Linear.vos
 theories/Exec/Extract.vo theories/Exec/Extract.glob theories/Exec/Extract.v.beautified theories/Exec/Extract.required_vo: theories/Exec/Extract.v theories/Exec/Entry.vo
 theories/Exec/Extract.vio: theories/Exec/Extract.v theories/Exec/Entry.vio
 theories/Exec/Extract.vos theories/Exec/Extract.vok theories/Exec/Extract.required_vos: theories/Exec/Extract.v theories/Exec/Entry.vos
@@ -34,6 +34,9 @@ theories/Gen/GenericUtils.vos theories/Gen/GenericUtils.vok theories/Gen/Generic
 theories/Gen/Guards.vo theories/Gen/Guards.glob theories/Gen/Guards.v.beautified theories/Gen/Guards.required_vo: theories/Gen/Guards.v 
 theories/Gen/Guards.vio: theories/Gen/Guards.v 
 theories/Gen/Guards.vos theories/Gen/Guards.vok theories/Gen/Guards.required_vos: theories/Gen/Guards.v 
+theories/Props/C01.vo theories/Props/C01.glob theories/Props/C01.v.beautified theories/Props/C01.required_vo: theories/Props/C01.v theories/Base/Scalar.vo theories/Base/FieldLemmas.vo theories/Spectral/Symbols.vo theories/Spectral/LinOp.vo theories/Steppers/Linear.vo theories/Steppers/LinearProofs.vo theories/Gen/ETDRK.vo theories/Base/Cplx.vo
+theories/Props/C01.vio: theories/Props/C01.v theories/Base/Scalar.vio theories/Base/FieldLemmas.vio theories/Spectral/Symbols.vio theories/Spectral/LinOp.vio theories/Steppers/Linear.vio theories/Steppers/LinearProofs.vio theories/Gen/ETDRK.vio theories/Base/Cplx.vio
+theories/Props/C01.vos theories/Props/C01.vok theories/Props/C01.required_vos: theories/Props/C01.v theories/Base/Scalar.vos theories/Base/FieldLemmas.vos theories/Spectral/Symbols.vos theories/Spectral/LinOp.vos theories/Steppers/Linear.vos theories/Steppers/LinearProofs.vos theories/Gen/ETDRK.vos theories/Base/Cplx.vos
 theories/Props/C02.vo theories/Props/C02.glob theories/Props/C02.v.beautified theories/Props/C02.required_vo: theories/Props/C02.v theories/Base/Scalar.vo theories/Base/FieldLemmas.vo theories/ETDRK/Phi.vo theories/ETDRK/Order.vo theories/Gen/ETDRK.vo theories/Tie/ETDRKTie.vo theories/Base/Cplx.vo
 theories/Props/C02.vio: theories/Props/C02.v theories/Base/Scalar.vio theories/Base/FieldLemmas.vio theories/ETDRK/Phi.vio theories/ETDRK/Order.vio theories/Gen/ETDRK.vio theories/Tie/ETDRKTie.vio theories/Base/Cplx.vio
 theories/Props/C02.vos theories/Props/C02.vok theories/Props/C02.required_vos: theories/Props/C02.v theories/Base/Scalar.vos theories/Base/FieldLemmas.vos theories/ETDRK/Phi.vos theories/ETDRK/Order.vos theories/Gen/ETDRK.vos theories/Tie/ETDRKTie.vos theories/Base/Cplx.vos
@@ -46,12 +49,21 @@ theories/Props/C14.vos theories/Props/C14.vok theories/Props/C14.required_vos: t
 theories/Props/C20.vo theories/Props/C20.glob theories/Props/C20.v.beautified theories/Props/C20.required_vo: theories/Props/C20.v theories/Gen/Guards.vo
 theories/Props/C20.vio: theories/Props/C20.v theories/Gen/Guards.vio
 theories/Props/C20.vos theories/Props/C20.vok theories/Props/C20.required_vos: theories/Props/C20.v theories/Gen/Guards.vos
+theories/Spectral/LinOp.vo theories/Spectral/LinOp.glob theories/Spectral/LinOp.v.beautified theories/Spectral/LinOp.required_vo: theories/Spectral/LinOp.v theories/Base/Scalar.vo theories/Base/FieldLemmas.vo theories/Spectral/Symbols.vo
+theories/Spectral/LinOp.vio: theories/Spectral/LinOp.v theories/Base/Scalar.vio theories/Base/FieldLemmas.vio theories/Spectral/Symbols.vio
+theories/Spectral/LinOp.vos theories/Spectral/LinOp.vok theories/Spectral/LinOp.required_vos: theories/Spectral/LinOp.v theories/Base/Scalar.vos theories/Base/FieldLemmas.vos theories/Spectral/Symbols.vos
 theories/Spectral/Symbols.vo theories/Spectral/Symbols.glob theories/Spectral/Symbols.v.beautified theories/Spectral/Symbols.required_vo: theories/Spectral/Symbols.v theories/Base/Scalar.vo
 theories/Spectral/Symbols.vio: theories/Spectral/Symbols.v theories/Base/Scalar.vio
 theories/Spectral/Symbols.vos theories/Spectral/Symbols.vok theories/Spectral/Symbols.required_vos: theories/Spectral/Symbols.v theories/Base/Scalar.vos
 theories/Steppers/Generic.vo theories/Steppers/Generic.glob theories/Steppers/Generic.v.beautified theories/Steppers/Generic.required_vo: theories/Steppers/Generic.v theories/Base/Scalar.vo theories/Base/FieldLemmas.vo theories/Spectral/Symbols.vo
 theories/Steppers/Generic.vio: theories/Steppers/Generic.v theories/Base/Scalar.vio theories/Base/FieldLemmas.vio theories/Spectral/Symbols.vio
 theories/Steppers/Generic.vos theories/Steppers/Generic.vok theories/Steppers/Generic.required_vos: theories/Steppers/Generic.v theories/Base/Scalar.vos theories/Base/FieldLemmas.vos theories/Spectral/Symbols.vos
+theories/Steppers/Linear.vo theories/Steppers/Linear.glob theories/Steppers/Linear.v.beautified theories/Steppers/Linear.required_vo: theories/Steppers/Linear.v theories/Base/Scalar.vo theories/Spectral/Symbols.vo
+theories/Steppers/Linear.vio: theories/Steppers/Linear.v theories/Base/Scalar.vio theories/Spectral/Symbols.vio
+theories/Steppers/Linear.vos theories/Steppers/Linear.vok theories/Steppers/Linear.required_vos: theories/Steppers/Linear.v theories/Base/Scalar.vos theories/Spectral/Symbols.vos
+theories/Steppers/LinearProofs.vo theories/Steppers/LinearProofs.glob theories/Steppers/LinearProofs.v.beautified theories/Steppers/LinearProofs.required_vo: theories/Steppers/LinearProofs.v theories/Base/Scalar.vo theories/Base/FieldLemmas.vo theories/Spectral/Symbols.vo theories/Steppers/Linear.vo
+theories/Steppers/LinearProofs.vio: theories/Steppers/LinearProofs.v theories/Base/Scalar.vio theories/Base/FieldLemmas.vio theories/Spectral/Symbols.vio theories/Steppers/Linear.vio
+theories/Steppers/LinearProofs.vos theories/Steppers/LinearProofs.vok theories/Steppers/LinearProofs.required_vos: theories/Steppers/LinearProofs.v theories/Base/Scalar.vos theories/Base/FieldLemmas.vos theories/Spectral/Symbols.vos theories/Steppers/Linear.vos
 theories/Tie/ETDRKTie.vo theories/Tie/ETDRKTie.glob theories/Tie/ETDRKTie.v.beautified theories/Tie/ETDRKTie.required_vo: theories/Tie/ETDRKTie.v theories/Base/Scalar.vo theories/Base/FieldLemmas.vo theories/ETDRK/Phi.vo theories/Gen/ETDRK.vo
 theories/Tie/ETDRKTie.vio: theories/Tie/ETDRKTie.v theories/Base/Scalar.vio theories/Base/FieldLemmas.vio theories/ETDRK/Phi.vio theories/Gen/ETDRK.vio
 theories/Tie/ETDRKTie.vos theories/Tie/ETDRKTie.vok theories/Tie/ETDRKTie.required_vos: theories/Tie/ETDRKTie.v theories/Base/Scalar.vos theories/Base/FieldLemmas.vos theories/ETDRK/Phi.vos theories/Gen/ETDRK.vos
